@@ -198,14 +198,12 @@ func (fw *FileWrapV2) WriteSlice(slotIdx int, endSlotIdx int, offset int64, dat 
 	if err != nil {
 		return errors.Wrapf(err, "seek unreachable file:%s", fw.Name())
 	}
-	var buff = make([]byte, 0, unit32Size)
+	// size and data go out in one write: a process that dies between two writes would leave the
+	// new size in front of the old data
+	var buff = make([]byte, 0, unit32Size+len(dat))
 	buff = encoding.MarshalUint32(buff, uint32(len(dat))) // size
+	buff = append(buff, dat...)                           // data
 	_, err = fw.fd.Write(buff)
-	if err != nil {
-		return errors.Wrapf(err, "write failed for file:%s", fw.Name())
-	}
-
-	_, err = fw.fd.Write(dat) // data
 	if err != nil {
 		return errors.Wrapf(err, "write failed for file:%s", fw.Name())
 	}
@@ -232,7 +230,6 @@ func (fw *FileWrapV2) WriteSlice(slotIdx int, endSlotIdx int, offset int64, dat 
 	}
 	if isMeta {
 		copy(fw.metaCache[offset:], buff)
-		copy(fw.metaCache[offset+int64(len(buff)):], dat)
 	}
 
 	return errors.Wrapf(err, "seek unreachable file:%s", fw.Name())
